@@ -48,6 +48,15 @@ Proof.
   apply (A u); auto. apply (hist_fc_le _ _ _ _ _ E). exact Hu.
 Qed.
 
+(** ... nor, within one poll, of a strict descendant of a node that ends the poll failed/cancelled *)
+Theorem C02_no_submit_same_poll_proof e u x k sc res : In e (run_trace c g (init g) ps) ->
+  In (ESubmit x k sc res) (evs (e_post e)) -> FC (e_post e) u -> reach g u x -> u = x.
+Proof.
+  intros He H Fu R. destruct (hist_is_poll e He) as ([I0 T0] & V0 & E0 & _).
+  pose proof (poll_no_submit_same c g (e_pre e) (e_pin e) W (i2_inv g _ I0) T0 V0 x k sc res) as PS.
+  rewrite E0 in PS. cbn [fst] in PS. eauto.
+Qed.
+
 (** the sub-tree of a failed node (of a cancelled one, unless it was merely popped after a cancel
     request) is failed/cancelled, with status FAILED or CANCELLED below the node *)
 Theorem C02_marked_proof e u d : In e (run_trace c g (init g) ps) ->
@@ -97,70 +106,50 @@ Proof.
   apply (i_dj_fc g _ (i2_inv g _ I)). exact F2.
 Qed.
 
+(** the cause, in poll [e], of y's being failed/cancelled: y itself was popped from the ready queue
+    after a cancel request, or y lies in the sub-tree of a node w that got an unsuccessful report
+    or had a failed submission in that poll (and w is failed/cancelled at the end of it) *)
+Definition cause (e : entry) (y : nat) : Prop :=
+  popped g (e_post e) y \/
+  exists w, rown (e_post e) (done_final c (e_pin e)) w /\ reach g w y /\ FC (e_post e) w.
+
 (** nothing else is swept: within one poll ... *)
 Theorem C02_exact_poll_proof e y : In e (run_trace c g (init g) ps) -> 0 < attempts c ->
-  FC (e_post e) y ->
-  FC (e_pre e) y \/ own g (e_post e) (done_final c (e_pin e)) y \/
-  exists z, In z (parents (attr g y)) /\ FC (e_post e) z.
+  FC (e_post e) y -> FC (e_pre e) y \/ cause e y.
 Proof.
   intros He Ha Hy. destruct (hist_is_poll e He) as ([I0 _] & V0 & E0 & _).
   pose proof (poll_exact c g (e_pre e) (e_pin e) W Ha (i2_inv g _ I0) V0) as PX.
-  cbv zeta in PX. rewrite E0 in PX. cbn [fst] in PX. auto.
+  cbv zeta in PX. rewrite E0 in PX. cbn [fst] in PX. unfold cause. destruct (PX y Hy) as [H|[H|H]]; auto.
 Qed.
 
-(** ... and over the whole history: every failed/cancelled node descends from a node with an
-    own cause in some poll so far *)
-Lemma one_poll_origin s p : 0 < attempts c -> Good c g s -> valid_pin s p = true ->
-  forall y, FC (fst (poll c g s p)) y ->
-  (exists u, reach g u y /\ FC s u) \/
-  (exists u, reach g u y /\ own g (fst (poll c g s p)) (done_final c p) u /\ FC (fst (poll c g s p)) u).
-Proof.
-  intros Ha [I T] Vp. pose proof (poll_exact c g s p W Ha (i2_inv g s I) Vp) as PX. cbv zeta in PX.
-  pose proof (poll_Inv c g s p W (i2_inv g s I) T Vp) as [I1 _].
-  intros y. induction y as [y IH] using (well_founded_induction lt_wf). intros Hy.
-  destruct (PX y Hy) as [H|[H|[z [Hz Fz]]]].
-  - left. exists y. split; [apply reach_refl|exact H].
-  - right. exists y. split; [apply reach_refl|auto].
-  - assert (Hyl : y < length g).
-    { apply (i_bound g _ I1). destruct Hy; auto. }
-    assert (Hlt : z < y) by (eapply wf_par_lt; eauto).
-    assert (Ed : edge g z y).
-    { split; [lia|]. eapply wf_par_child; eauto. }
-    destruct (IH z Hlt Fz) as [(u & R & Fu)|(u & R & Ou)].
-    + left. exists u. split; auto. eapply reach_step; eauto.
-    + right. exists u. split; auto. eapply reach_step; eauto.
-Qed.
-
+(** ... and over the whole history *)
 Lemma origin_gen : 0 < attempts c -> forall qs s tr1 e tr2, Good c g s -> valid_pins c g s qs = true ->
   run_trace c g s qs = tr1 ++ e :: tr2 -> forall y, FC (e_post e) y ->
-  (exists u, reach g u y /\ FC s u) \/
-  (exists u e', reach g u y /\ In e' (tr1 ++ [e]) /\
-                own g (e_post e') (done_final c (e_pin e')) u /\ FC (e_post e') u).
+  FC s y \/ exists e', In e' (tr1 ++ [e]) /\ cause e' y.
 Proof.
   intros Ha. induction qs as [|p qs IH]; intros s tr1 e tr2 G Vq E y Hy; cbn [run_trace] in E.
   - destruct tr1; discriminate.
   - cbn [valid_pins] in Vq. apply andb_true_iff in Vq. destruct Vq as [V1 V2].
     pose proof (Good_poll c g s p W G V1) as G1.
-    pose proof (one_poll_origin s p Ha G V1) as OP.
-    destruct (poll c g s p) as [s1 r] eqn:Ep. cbn [fst] in G1, OP.
+    pose proof (poll_exact c g s p W Ha (i2_inv g s (proj1 G)) V1) as PX. cbv zeta in PX.
+    destruct (poll c g s p) as [s1 r] eqn:Ep. cbn [fst] in G1, PX.
+    assert (Head : forall z, FC s1 z -> FC s z \/
+              cause {| e_pre := s; e_pin := p; e_post := s1; e_stat := r |} z).
+    { intros z Hz. unfold cause. cbn [e_post e_pin]. destruct (PX z Hz) as [H|[H|H]]; auto. }
     destruct tr1 as [|e0 tr1]; cbn [app] in E; inversion E as [[E0 E']]; clear E.
-    + subst e. cbn [e_post] in *. destruct (OP y Hy) as [H|(u & R & O & F)]; auto.
-      right. exists u. eexists. split; [exact R|]. split; [left; reflexivity|]. cbn. auto.
+    + subst e. cbn [e_post] in Hy. destruct (Head y Hy) as [H|H]; auto.
+      right. eexists. split; [left; reflexivity|exact H].
     + destruct r; try (destruct tr1; discriminate).
-      destruct (IH s1 tr1 e tr2 G1 V2 E' y Hy) as [(u & R & Fu)|(u & e' & R & Hin & O)].
-      * destruct (OP u Fu) as [(u' & R' & Fu')|(u' & R' & O' & F')].
-        -- left. exists u'. split; auto. eapply reach_trans; eauto.
-        -- right. exists u'. eexists. split; [eapply reach_trans; eauto|]. split; [left; reflexivity|].
-           cbn. auto.
-      * right. exists u, e'. split; auto. split; auto. right. exact Hin.
+      destruct (IH s1 tr1 e tr2 G1 V2 E' y Hy) as [Fy|(e' & Hin & Hc)].
+      * destruct (Head y Fy) as [H|H]; auto. right. eexists. split; [left; reflexivity|exact H].
+      * right. exists e'. split; auto. right. exact Hin.
 Qed.
 
 Theorem C02_exact_proof tr1 e tr2 y : 0 < attempts c ->
   run_trace c g (init g) ps = tr1 ++ e :: tr2 -> FC (e_post e) y ->
-  exists u e', reach g u y /\ In e' (tr1 ++ [e]) /\
-               own g (e_post e') (done_final c (e_pin e')) u /\ FC (e_post e') u.
+  exists e', In e' (tr1 ++ [e]) /\ cause e' y.
 Proof.
   intros Ha E Hy.
-  destruct (origin_gen Ha ps (init g) tr1 e tr2 (Good_init c g) V E y Hy) as [(u & _ & [[]|[]])|H]; auto.
+  destruct (origin_gen Ha ps (init g) tr1 e tr2 (Good_init c g) V E y Hy) as [[[]|[]]|H]; auto.
 Qed.
 End C02.
